@@ -297,7 +297,7 @@ CALC_SITES = {
     "repeat_assign": 'function t() {{ Hardcode.repeat((i)=>{{ $x = Hardcode.calc({E}); }}, start=0, stop=2); }}',
     "repeat_tp": 'function t() {{ Hardcode.repeat((i)=>{{ tp @s ~ Hardcode.calc({E}) ~; }}, start=1, stop=3); }}',
     "repeat_two": 'function t() {{ Hardcode.repeat((i)=>{{ $x = Hardcode.calc({E}); $y = Hardcode.calc({E2}); }}, start=0, stop=2); }}',
-    "repeat_list": 'function t() {{ Hardcode.repeatList((v, i)=>{{ say "$v"; $x = Hardcode.calc({E}); }}, strings=["p","q"]); }}',
+    "repeat_list": 'function t() {{ Hardcode.repeatList((i, v)=>{{ say "$v"; $x = Hardcode.calc({E}); }}, strings=["p","q"]); }}',
     "lazy": '@lazy function lz(i) {{ $x = Hardcode.calc({E}); }}\nfunction t() {{ lz(4); }}',
     "lazy_two_calls": '@lazy function lz(i) {{ tp @s ~ Hardcode.calc({E}) ~; }}\nfunction t() {{ lz(1); lz(2); }}',
     "switch": 'function t() {{ Hardcode.switch($s, (i)=>{{ $x = Hardcode.calc({E}); }}, count=2); }}',
